@@ -426,6 +426,8 @@ func nativeSprint(name string, args []engine.Value) (engine.Value, bool) {
 				return nil, false
 			}
 			native = append(native, c)
+		case engine.Host:
+			native = append(native, v.V)
 		default:
 			return nil, false
 		}
